@@ -73,6 +73,15 @@ impl RefParser {
         true
     }
     fn dispatch(&mut self, f: char, params: &[u32], private: bool) {
+        if let Some(c) = ref_dispatch(f, params, private) {
+            self.ev(c);
+        }
+    }
+}
+
+/// documented mapping of a CSI final byte and its parameter list to a listener call
+pub fn ref_dispatch(f: char, params: &[u32], private: bool) -> Option<Call> {
+    {
         use Call::*;
         let p0 = params.first().cloned();
         let p1 = params.get(1).cloned();
@@ -101,10 +110,13 @@ impl RefParser {
             'l' => ResetMode(params.to_vec(), private),
             'm' => Sgr(params.to_vec()),
             'r' => SetMargins(p0, p1),
-            _ => return,
+            _ => return None,
         };
-        self.ev(c);
+        Some(c)
     }
+}
+
+impl RefParser {
     fn finish_osc(&mut self, code: char, buf: &str) {
         let mut it = buf.chars();
         let first = it.next();
